@@ -152,6 +152,7 @@ Print Assumptions C08_resend_preserves_inv_both.
 
 Theorem C08_add_does_not_see_the_switch : forall a b f f' bal s t, add (mkCfg a b f) bal s t = add (mkCfg a b f') bal s t.
 Proof. exact add_follow_irrelevant. Qed.
+Print Assumptions C08_add_does_not_see_the_switch.
 
 (* where the two differ: fee per byte 2, then 0, a transaction paying 1 per byte is pooled, fee per byte 2 again *)
 Example C08_example_follow_fpb_differs :
